@@ -337,7 +337,10 @@ def run(ctx):
     # ---- string spaces longer than the internal blocks of the rank-2 kernels (100 x 100 blocks; >= 200 strings):
     #      randomly chosen tensor elements against the exact Spec value ------------------------------------------------
     from props.C10 import int_fill
-    wide = [(10, 0, 4), (10, 1, 6), (10, 4, 1)] if quick else [(10, 0, 4), (10, 1, 6), (10, 4, 1), (10, 5, 0), (10, 5, 1), (11, 1, 4), (9, 4, 4)]
+    # ... and sparsely filled sectors of seven and more orbitals, where the reference path switches to its low-filling kernels
+    wide = [(10, 0, 4), (10, 1, 6), (10, 4, 1), (7, 1, 2), (7, 2, 2), (7, 0, 2)] if quick else \
+        [(10, 0, 4), (10, 1, 6), (10, 4, 1), (10, 5, 0), (10, 5, 1), (11, 1, 4), (9, 4, 4), (7, 1, 2), (7, 2, 2), (7, 0, 2),
+         (7, 2, 1), (8, 2, 2), (7, 2, 0)]
     nr = numpy.random.RandomState(rng.randrange(2 ** 31))
     for norb, na, nb in wide:
         key = (na + nb, na - nb)
